@@ -164,6 +164,33 @@ def run(model, col, tier):
         col.check(not late, "R16.3", f"{IR}::Linker.Link keeps imports discovered during a round",
                   "the pending set is reset before the round's modules are added, so their imports stay pending",
                   "the pending-import set is reset after AddModule has added the imports of the modules loaded in this round: imports of imported modules are discarded and never loaded", IR, w)
+        # ... and every round makes progress: the pending set is emptied / shrunk inside the loop
+        shrinks = any(k == "reset" for _, k, _ in evs_) or any(
+            (isinstance(n, ast.Call) and last_attr(n) in ("pop", "discard", "remove", "difference_update") and isinstance(n.func.value, ast.Attribute) and n.func.value.attr == pending)
+            or (isinstance(n, ast.AugAssign) and isinstance(n.op, ast.Sub) and isinstance(n.target, ast.Attribute) and n.target.attr == pending) for n in ast.walk(w))
+        if pending and pending in unparse(w.test):
+            col.check(shrinks, "R16.3", f"{IR}::Linker.Link work-list makes progress", "names taken from the pending set are removed from it",
+                      f"the loop runs while `{pending}` is non-empty but never removes anything from it: Link does not terminate as soon as one import exists", IR, w)
+    # both tables of every added module reach the program
+    merged = {}
+    for lp_ in [n for n in ast.walk(addm) if isinstance(n, ast.For)]:
+        src_ = unparse(lp_.iter)
+        for st_ in ast.walk(lp_):
+            if isinstance(st_, ast.Assign) and isinstance(st_.targets[0], ast.Subscript) and isinstance(st_.targets[0].value, ast.Attribute):
+                for what in ("Functions", "Globals"):
+                    if f".{what}" in src_:
+                        merged[what] = st_.targets[0].value.attr
+    for what in ("Functions", "Globals"):
+        col.check(what in merged, "R16.3", f"{IR}::Linker.AddModule merges module.{what}", f"every entry of module.{what} is entered into the linker's table",
+                  f"AddModule does not enter the module's {what} into the linker's table: {what.lower()} of a linked or imported module are missing from the program", IR, addm)
+    # the linker's own fields all exist (a missing one only shows when an import is actually loaded)
+    init_l = lk.own_method("__init__")
+    stored = {n.targets[0].attr for n in ast.walk(init_l) if isinstance(n, ast.Assign) and isinstance(n.targets[0], ast.Attribute)}
+    for mname_, m_ in lk.methods.items():
+        for n in ast.walk(m_):
+            if isinstance(n, ast.Attribute) and isinstance(n.value, ast.Name) and n.value.id == "self" and n.attr.startswith("__") and not n.attr.endswith("__") and isinstance(n.ctx, ast.Load):
+                col.check(n.attr in stored, "R16.3", f"{IR}::Linker.{mname_} reads self.{n.attr}", "initialised in __init__",
+                          f"`self.{n.attr}` is read in Linker.{mname_} but never initialised: AttributeError as soon as this path runs (e.g. the first import that is loaded)", IR, n)
     addcalls = [c for c in ast.walk(link) if isinstance(c, ast.Call) and last_attr(c) == "AddModule"]
     col.check(bool(addcalls) and any("Load" in unparse(c.args[0]) for c in addcalls if c.args), "R16.3", f"{IR}::Linker.Link adds what it loads", "self.AddModule(loader.Load(name))", None, IR, link)
     ret = [unparse(r.value) for r in ast.walk(link) if isinstance(r, ast.Return)]
